@@ -295,3 +295,24 @@ Definition cv_key (merge inkids : bool) (dval : val) (uvo : option val) : option
            | _, _ => Some value
            end
   end.
+
+(* every table of every chart's defaults in the tree has unique keys *)
+Fixpoint tree_wf (c : chart) : Prop :=
+  match c with
+  | Chart _ _ vals _ deps _ _ _ =>
+      wfm vals /\
+      (fix go (ds : list chart) : Prop :=
+         match ds with
+         | [] => True
+         | d :: t => tree_wf d /\ go t
+         end) deps
+  end.
+
+(* a value that is neither a table nor null *)
+Definition plain_val (x : val) : Prop := is_table x = false /\ is_null x = false.
+
+Fixpoint has_path_b (c : chart) (q : list string) {struct q} : bool :=
+  match q with
+  | [] => true
+  | n :: q' => existsb (fun d => String.eqb (cname d) n && has_path_b d q') (cdeps c)
+  end.
